@@ -92,8 +92,24 @@ Eval vm_compute in (length cases, length (filter (fun c => negb (ok c)) cases)).
         want = c["v"] * a["rho"] / 1000.0
         if abs(a["m_flow"] - want) > 1e-12 * want:
             chk.violation("flow-pair", c, {"m_flow": a["m_flow"]}, f"mass flow per borehole = v x rho / 1000 = {want}")
+    # ---- whole designs through the manager with a SYSTEM flow, every design method: the mass flow per borehole of the returned
+    #      design is V x rho / 1000 / N
+    from configs import cfg
+    methods = ["BIZONEDRECTANGLE", "NEARSQUARE", "ROWWISE"] if quick else ["BIZONEDRECTANGLE", "NEARSQUARE", "ROWWISE", "RECTANGLE", "BIRECTANGLE", "BIRECTANGLECONSTRAINED"]
+    flows = {"BIZONEDRECTANGLE": 3.0, "NEARSQUARE": 3.5, "ROWWISE": 4.0, "RECTANGLE": 3.0, "BIRECTANGLE": 2.5, "BIRECTANGLECONSTRAINED": 3.0}
+    for er in e2e_runs([cfg(m, months=12, flow=("SYSTEM", flows[m])) for m in methods]):
+        if not er.get("ok"):
+            chk.broken.append({"name": "end-to-end run failed", "detail": json.dumps({k: er.get(k) for k in ("exc", "msg")})})
+            continue
+        chk.cov["evaluations"] += 1
+        nontrivial += 1
+        v = er["cfg"]["design"]["flow_rate"]
+        want = v / er["nbh"] * er["fluid_rho"] / 1000.0
+        if abs(er["m_flow_borehole"] - want) > 1e-9 * want:
+            chk.violation("flow-design", er["cfg"], {"boreholes": er["nbh"], "m_flow_borehole": er["m_flow_borehole"]},
+                          f"system flow {v} L/s over {er['nbh']} boreholes: mass flow per borehole = V x rho / 1000 / N = {want}")
     chk.cov["distinct_nontrivial"] = nontrivial
-    chk.cov["rule"] = ("retrieve_flow of both search classes on 1..400 boreholes (48 sizes in quick) x both flow types x fluids; paired real GHE simulations (borehole v vs system N v) over pipe types and fluids; "
+    chk.cov["rule"] = ("retrieve_flow of both search classes on 1..400 boreholes (48 sizes in quick) x both flow types x fluids; paired real GHE simulations (borehole v vs system N v) over pipe types and fluids; whole designs through the manager with a system flow for each design method; "
                        "non-trivial = one flow split or one simulated pair")
     chk.sample({"flow_case": cases[3], "result": r[3]})
     chk.cov["trusted_base"] = ["borehole resistance and temperatures are functions of the mass flow computed by external code (pygfunction); equality is observed on paired real simulations"]
